@@ -397,9 +397,10 @@ def run(pid, tier, replay=None):
             classify_run(verdict, by_id[rid], cases[by_id[rid]["case"]], r)
         if pid == "C05":
             c05_compare(verdict, runs, res)
-        if tier == "quick" and len(runs) > 1000:
-            # validate a seed-chosen subset of the traces in the quick tier
-            keep = set(rng.sample(sorted(by_id), 1000))
+        cap = 1000 if tier == "quick" else 5000
+        if len(runs) > cap:
+            # every run's outcome is checked; a seed-chosen subset of the traces is validated by TLC
+            keep = set(rng.sample(sorted(by_id), cap))
             filt = os.path.join(wd, "trace_%s_sub.ndjson" % name)
             with open(filt, "w") as fh:
                 for rid, lines in split_traces(tracefile):
